@@ -1,9 +1,11 @@
 package main
 
 import (
+	"bytes"
 	"fmt"
 	"math/rand"
 	"net"
+	"runtime/debug"
 	"strings"
 	"sync/atomic"
 	"syscall"
@@ -21,10 +23,10 @@ func (c07Stream) Name() string               { return "c07" }
 func (c07Stream) CaseTimeout() time.Duration { return 60 * time.Second }
 func (c07Stream) NoModel() bool               { return true }
 func (c07Stream) Rule() string {
-	return "one fault per scenario - a panicking handler for each concurrently dispatched operation (bind, search, modify, add, delete, extended), for StartTLS, for the unbind route and for the default route; a connection reset; a truncated frame followed by silence; a client that sends searches with large results and never reads; descriptor exhaustion at accept (RLIMIT_NOFILE lowered in the worker) - injected while two bystander connections issue requests continuously; oracle: the worker process survives, the bystanders keep receiving correct responses during and after the fault, and a new connection is accepted and served afterwards; non-trivial = every scenario, distinct by fault"
+	return "one fault per scenario - a panicking handler for each concurrently dispatched operation (bind, search, modify, add, delete, extended), for StartTLS, for the unbind route and for the default route; a connection reset; a truncated frame followed by silence; a client that sends searches with large results and never reads; descriptor exhaustion at accept (RLIMIT_NOFILE lowered in the worker); a frame of 2^20 nested indefinite-length sequence headers (goroutine stack limit lowered to 32 MiB in the worker) - injected while two bystander connections issue requests continuously; oracle: the worker process survives, the bystanders keep receiving correct responses during and after the fault, and a new connection is accepted and served afterwards; non-trivial = every scenario, distinct by fault"
 }
 
-var c07Faults = []string{"panic-bind", "panic-search", "panic-modify", "panic-add", "panic-delete", "panic-extended", "panic-starttls", "panic-unbind", "panic-default", "rst", "truncated", "notreading", "fdexhaust"}
+var c07Faults = []string{"panic-bind", "panic-search", "panic-modify", "panic-add", "panic-delete", "panic-extended", "panic-starttls", "panic-unbind", "panic-default", "rst", "truncated", "notreading", "fdexhaust", "deepnest"}
 
 func (c07Stream) Generate(rng *rand.Rand, n int, thorough bool) []Case {
 	var cs []Case
@@ -175,6 +177,13 @@ func (c07Stream) Impl(c Case) string {
 			buf = append(buf, nd.Ser()...)
 		}
 		_ = victim.send(buf)
+	case fault == "deepnest":
+		// a "malformed frame": nothing but nested indefinite-length sequence headers. asn1-ber reads
+		// it recursively with no depth limit; the goroutine stack limit is lowered in this worker so that
+		// the witness stays small (with the default 1 GB limit the same happens at ~8 MB of input).
+		debug.SetMaxStack(32 << 20)
+		_ = victim.send(bytes.Repeat([]byte{0x30, 0x80}, 1<<20))
+		time.Sleep(300 * time.Millisecond)
 	case fault == "fdexhaust":
 		var lim syscall.Rlimit
 		_ = syscall.Getrlimit(syscall.RLIMIT_NOFILE, &lim)
